@@ -200,7 +200,7 @@ PROPS["C20"] = {
 PROPS["C17"] = {
     "families": ["C17"],
     "nontrivial": lambda line, out: out.startswith("ok:") or (line.startswith("KYE") and len(out) > 10),
-    "rule": "resources/kytea-model.bin (whole and every 5th / every truncation point) and 40 (quick) / 1500 (thorough) abstract KyTea "
+    "rule": "resources/kytea-model.bin (whole and every 5th / every truncation point) and 40 (quick) / 250 (thorough) abstract KyTea "
             "descriptions (windows 1..3, up to 30 character n-grams and 12 type n-grams incl. the 0x04 letter, stored vectors sometimes "
             "longer than the window needs, 0..8 dictionaries with membership masks, 0..3 tag slots) encoded to files by the harness's "
             "Rust encoder AND by the Lean encoder (bytes compared), converted by the REAL reader + TryFrom; every ~60th (quick) / every "
